@@ -9,10 +9,13 @@ install_libm_proxy()
 
 
 def _job(p):
-    crop, conc, wfile, start, end = p
+    crop, conc, wfile, start, end = p[:5]
+    ref = p[5] if len(p) > 5 else None
     cfg = {"start": start, "end": end, "weather": {"file": wfile, "ops": []},
            "soil": {"type": "SandyLoam"}, "crop": {"name": crop, "planting_date": "05/01"},
            "co2": {"constant_conc": True, "current_concentration": conc}}
+    if ref is not None:
+        cfg["co2"]["ref_concentration"] = ref      # a user-chosen reference concentration (the factor must be 1 there, whatever it is)
     try:
         m = sim.build_model(cfg)
         m._initialize()
@@ -31,7 +34,12 @@ def gen(rng, n):
     while len(pairs) < n:
         c = crops[len(pairs) % len(crops)]
         conc = rng.choice(concs) if rng.random() < 0.6 else round(rng.uniform(250, 2500), 2)
-        pairs.append((c, conc, "champion_climate.txt", "1985/05/01", "1986/12/30"))
+        ref = None
+        if rng.random() < 0.4:      # non-default reference concentration, concentrations around it
+            ref = rng.choice([300.0, 330.0, 350.0, 360.0, 380.0, 400.0, 450.0, round(rng.uniform(280, 520), 2)])
+            if rng.random() < 0.6:
+                conc = round(ref + rng.choice([0.0, 0.5, 1.0, 5.0, 20.0, 60.0, -0.5, -5.0, -40.0, rng.uniform(-60, 250)]), 3)
+        pairs.append((c, conc, "champion_climate.txt", "1985/05/01", "1986/12/30", ref))
     install_libm_proxy()
     res = sim.pmap(_job, pairs, timeout=60)
     for r in res:
